@@ -8,7 +8,7 @@ GEN = []
 RULE = ("grid cases: one history = create + up to 8 operations (overwrite, modify, update, append) on one SDMF or MDMF file with k in 1..3, "
         "DEFAULT_MUTABLE_MAX_SEGMENT_SIZE patched to 24..40 bytes (files of 0..9 segments, sizes and update offsets/lengths on and around "
         "segment boundaries and the 1/2/4/8-segment counts; modifiers returning None, the unchanged contents, b\"\" and one byte) or to 512 bytes (files of a few KB), full and partial reads after every "
-        "operation, server response order drawn from the case seed; non-trivial = at least one in-place (MDMF) update or a multi-segment "
+        "operation, in some histories one share number falls back to the previous version or is lost before an update, server response order drawn from the case seed; non-trivial = at least one in-place (MDMF) update or a multi-segment "
         "read; distinct = distinct (format, k, segment size, operations).  Pure cases: every (old size, offset, length) for small segment "
         "sizes driven through the real TransformingUploadable / setup_encoding_parameters / Retrieve range selection")
 META = {
@@ -690,7 +690,7 @@ def judge_history(ctx, h, events, label):
                 lastkind += "-with-stale-or-missing-shares"
             if status != "ok":
                 ctx.oracle_fail("operation-failed:%s:%s:%s" % (fmt, lastkind, err),
-                                "%s #%d of the history fails with %s on a fault-free grid (file of %d bytes, segment size %d)"
+                                "%s #%d of the history fails with %s with every server reachable (file of %d bytes, segment size %d)"
                                 % (lastkind, ix, err, len(ref), next_multiple(h["maxseg"], h["k"])), case=case, step=ix)
                 ok = False
                 break
@@ -784,7 +784,7 @@ def stale_share_history(r, fmt, via_version):
 def grid_cases(ctx):
     ctx.correspondence("grid-histories-vs-model")
     terms, info = [], []
-    n = ctx.n(60, 600)
+    n = ctx.n(55, 600)
     nbig = ctx.n(5, 50)
     fixed = [(modify_boundary_history, fmt, via) for fmt in ("sdmf", "mdmf") for via in (False, True)]
     fixed += [(stale_share_history, "mdmf", False), (stale_share_history, "mdmf", True), (stale_share_history, "sdmf", False)]
